@@ -44,6 +44,18 @@ STRATS = {
     "signedbeaconblock/first": ("First", "1", ["nil"]),
 }
 
+# the strategies that consult the block-root cache (spec/CollectorLookup.tla): in the provider goroutine before the
+# response is handed over ("prov") or in the collector after the loops ("coll"); the wired family drives them over
+# the REAL cache service + the REAL beaconblockheader 'first' strategy (overlay/strategies/zz_verif_c07_wired_test.go)
+WIRED = {
+    "attestationdata/best": ("Best", ["nil", "niltarget", "badtarget"]),
+    "beaconblockroot/latest": ("Best", []),
+    "attestationdata/majority": ("Majority", ["nil", "niltarget", "badtarget"]),
+    "beaconblockroot/majority": ("RootMajority", []),
+}
+# quota of wired histories per strategy (quick tier): family of Scen_CollectorLookup.tla -> count
+WQ = {"slow": 14, "free": 10}
+
 _state = {"proposal_nil_ok": None, "reruns": 0, "blocked": {}}
 
 
@@ -147,6 +159,20 @@ def features(s):
     if s.get("calls"):
         f = set()
         cs = calls_of(s)
+        if s.get("wired"):
+            for c in s["calls"]:
+                ok = [p for p in c["provs"] if p["k"] == "valid" and p["ph"] != "late"]
+                miss = [p for p in ok if not c["pre"][p["r"] - 1]]
+                if miss:
+                    f.add("wired:miss")
+                slow = [p for p in miss if c["hdr"][p["r"] - 1] in ("ok1", "never")]
+                if slow:
+                    f.add("wired:slow-header")
+                if slow and any(p["r"] != q["r"] and (c["pre"][q["r"] - 1] or c["hdr"][q["r"] - 1] == "ok0")
+                                for p in slow for q in ok):
+                    f.add("wired:slow-beside-prompt")
+                if any(c["hdr"][p["r"] - 1] == "fail" for p in miss):
+                    f.add("wired:failed-lookup")
         per = [features(c) for c in cs]
         for x in per:
             f |= x
@@ -206,7 +232,7 @@ RARE = ["threshold-above-strict-majority", "at-threshold", "below-threshold", "e
 
 def sig_of(s):
     var = s["variant"]
-    return {"strat": s["strat"], "family": var, "history": bool(s.get("calls")),
+    return {"strat": s["strat"], "family": var, "history": bool(s.get("calls")), "wired": s.get("wired", ""),
             "nil_in_time": any(p["k"] == "invalid" and p.get("inv") == "nil" and p["ph"] != "late"
                                for c in calls_of(s) for p in c["provs"]),
             "thr_above_strict_majority": var == "Majority" and s["thr"] > s["n"] // 2 + 1}
@@ -265,7 +291,7 @@ def scenarios(tier):
     rnd.shuffle(out)
     hs = histories(tier, nil_ok, rnd)
     # histories first: they take longest, the single calls fill the driver's workers beside them
-    out = hs + out
+    out = wired_histories(tier, random.Random(vf.seed() * 104729 + 7)) + hs + out
     for i, s in enumerate(out):
         s["sc"] = i + 1
     return out
@@ -352,6 +378,51 @@ def histories(tier, nil_ok, rnd):
     return out
 
 
+def wired_histories(tier, rnd):
+    """Histories of calls on one WIRED instance (real cache + real header strategy behind the real strategy), drawn
+    by TLC (simulation, seeded) from Scen_CollectorLookup.tla."""
+    mult = 4 if tier == "thorough" else 1
+    num = 1500 * mult
+    raw = vf.tlc_scenarios(PID, "Scen_CollectorLookup", "Scen_CollectorLookup.cfg", num=num, depth=30, name="scen-wired")[:num]
+    pool = {}
+    for h in raw:
+        pool.setdefault((h["variant"], h["fam"]), []).append(h)
+    out = []
+    for strat in sorted(WIRED):
+        var, invs = WIRED[strat]
+        for fam, k in WQ.items():
+            cell = pool.get((var, fam), [])
+            have = []
+            for h in cell:
+                if not invs and any(p["k"] == "invalid" for c in h["calls"] for p in c["provs"]):
+                    # a strategy without validity rules: the node fails instead (also a member of the set LInit chooses from)
+                    h = dict(h, calls=[dict(c, provs=[dict(p, k="error", v=0, s=0, r=1) if p["k"] == "invalid" else p
+                                                      for p in c["provs"]]) for c in h["calls"]])
+                have.append(h)
+            if len(have) < k * mult:
+                raise vf.Broken("too few wired histories drawn for %s/%s: %d" % (strat, fam, len(have)))
+            for h in rnd.sample(have, k * mult):
+                calls = []
+                for c in h["calls"]:
+                    provs = [dict(p, inv=(rnd.choice(invs) if p["k"] == "invalid" else "")) for p in c["provs"]]
+                    calls.append({"at": c["at"], "provs": provs, "hdr": c["hdr"], "pre": c["pre"]})
+                perm = list(range(h["n"]))
+                if fam != "slow":
+                    rnd.shuffle(perm)
+                for c in calls:
+                    c["provs"] = [c["provs"][i] for i in perm]
+                # the header provider: the 'first' strategy over two header nodes (main.go's default) - a node that
+                # fails is silence to it, so a history with a failing header is wired to the node client directly
+                # (main.go's other branch)
+                direct = any(k == "fail" for c in calls for k in c["hdr"])
+                out.append({"strat": strat, "variant": var, "n": h["n"], "thr": h["thr"], "pc": rnd.choice([1, 2, 4]),
+                            "cap": h["n"], "T": T_MS, "seed": rnd.randrange(1 << 30), "fam": "wired-" + fam,
+                            "flt": "none", "strict": False, "slots": "distinct",
+                            "wired": "direct" if direct else "first", "calls": calls})
+    out.sort(key=lambda h: -len(h["calls"]))
+    return out
+
+
 def hint(replay_dir):
     """Which part of C07 a rejected call most plainly contradicts (explanation only, not the verdict)."""
     try:
@@ -379,7 +450,7 @@ def _hint(a, b):
     T = a["T"]
     eps = max(T // 4, 40)
     obs = a["obs"]
-    valid_in_time = [o for o in obs if o["k"] == "valid" and o["t"] < T - eps]
+    valid_in_time = [o for o in obs if o["k"] == "valid" and 0 <= o.get("avail", o["t"]) < T - eps]
     if any(o["k"] == "none" for o in obs):
         return "a node was never asked (or its request never ended): the fan-out to every node is missing in this call"
     if b["noreturn"] or b["t"] > T + eps:
@@ -411,11 +482,19 @@ def _hint(a, b):
 CONTROLS = [("MC_CollectorSem_leak.cfg", "MajorityRule"), ("MC_CollectorSem_leak_best.cfg", "ErrorIffNothing"),
             ("MC_CollectorSem_tally.cfg", "MajorityRule")]
 CONTROLS_FRESH = ["MC_CollectorSem_fresh.cfg", "MC_CollectorSem_tally_fresh.cfg"]
+# the cache on the path (spec/CollectorLookup.tla): a cache that fetches under one service-wide lock, a collector
+# whose tie-break lookups are not bounded by the hard time-out - TLC must reject them, else the lookup part says nothing
+LOOKUP_CONTROLS = [("MC_CollectorLookup_lock.cfg", "ErrorIffNothing"), ("MC_CollectorLookup_lock_best.cfg", "BestIsMax"),
+                   ("MC_CollectorLookup_tb.cfg", "NotOverdue")]
 
 
 def model_check(v, tier):
-    with ThreadPoolExecutor(max_workers=3) as ex:
+    with ThreadPoolExecutor(max_workers=4) as ex:
         main = ex.submit(vf.tlc_exhaustive, PID, "Collector", "MC_Collector.cfg", 4)
+        look = ex.submit(vf.tlc_exhaustive, PID, "CollectorLookup",
+                         "MC_CollectorLookup_big.cfg" if tier == "thorough" else "MC_CollectorLookup.cfg", 4, 2400)
+        lctl = [(c, inv, ex.submit(vf.tlc, PID, "ctl-" + c.replace(".cfg", ""), "CollectorLookup", c, 2, 600))
+                for c, inv in LOOKUP_CONTROLS]
         # two calls in flight on one instance
         pair = ex.submit(vf.tlc_exhaustive, PID, "CollectorInst",
                          "MC_CollectorInst_big.cfg" if tier == "thorough" else "MC_CollectorInst.cfg", 4, 2400)
@@ -425,10 +504,11 @@ def model_check(v, tier):
         v.add_mc(pair.result())
         for f in fresh:
             v.add_mc(f.result())
-        for c, inv, f in ctl:
+        v.add_mc(look.result())
+        for c, inv, f in ctl + lctl:
             r = f.result()
             if r["kind"] != "invariant" or r["violated"] != inv:
-                raise vf.Broken("%s no longer violates %s: the model of the long-lived instance is vacuous (%s %s)"
+                raise vf.Broken("%s no longer violates %s: the model of the long-lived instance / of the cache on the path is vacuous (%s %s)"
                                 % (c, inv, r["kind"], r["violated"]))
             vf.log("control %s: rejected by TLC as it must be (%s)" % (c, inv))
     if tier == "thorough":
@@ -463,7 +543,31 @@ def run(tier):
                sum(1 for h in hs for c in h["calls"] if c["at"] != "seq")))
     orig_report = v.report
     v.report = lambda sig, what, d: orig_report(sig, what + " -- " + hint(d) + " -- " + json.dumps(sig), d)
-    vf.conformance(v, sc, driver, "Trace_Collector", "Trace_Collector.cfg", sig_of, nontrivial, chunk=1500,
+    ws = [s for s in sc if s.get("wired")]
+    vf.log("%d of the histories run on a WIRED instance (real cache + real header strategy): %d calls" % (
+        len(ws), sum(len(h["calls"]) for h in ws)))
+    # one driver batch for everything; the wired family is validated against the specification with the cache on the path
+    cache = {"rows": driver(sc, "batch")}
+
+    def batch_of(part):
+        ids = {s["sc"] for s in part}
+
+        def drv(scs, tag):
+            if tag == "batch" and cache["rows"] is not None:
+                return [r for r in cache["rows"] if r["sc"] in ids]
+            return driver(scs, tag)
+        return drv
+
+    rest = [s for s in sc if not s.get("wired")]
+    save = vf.save_replay
+    try:
+        # (replay directories of the two parts must not collide)
+        vf.save_replay = lambda pid, k, *a: save(pid, k + 100, *a)
+        vf.conformance(v, ws, batch_of(ws), "Trace_CollectorLookup", "Trace_CollectorLookup.cfg", sig_of, nontrivial,
+                       tlc_timeout=1200)
+    finally:
+        vf.save_replay = save
+    vf.conformance(v, rest, batch_of(rest), "Trace_Collector", "Trace_Collector.cfg", sig_of, nontrivial, chunk=1500,
                    tlc_timeout=1200)
     v.coverage["rule"] = ("(a) initial states of Collector.tla enumerated by TLC (all multisets of node behaviours x phases, "
                           "n <= 4; quick: seeded stratified sample, thorough: all with n <= 3 plus a sample of n = 4), each a "
@@ -491,7 +595,7 @@ def selftest(tier):
     sc = [s for s in allsc if not s.get("calls") and s["n"] >= 2]
     rnd.shuffle(sc)
     allearly = [s for s in sc if len(in_time_valid(s)) >= 2 and all(p["ph"] == "early" for p in in_time_valid(s))]
-    hs = [s for s in allsc if s.get("calls")]
+    hs = [s for s in allsc if s.get("calls") and not s.get("wired")]
     rnd.shuffle(hs)
     sc = allearly[:200] + [s for s in sc if s not in allearly][:200] + hs[:60]
     for i, s in enumerate(sc):
@@ -575,5 +679,8 @@ def replay(path):
     v = vf.Verdict(PID, "quick")
     with open(os.path.join(path, "scenario.json")) as fh:
         s = json.load(fh)
-    vf.conformance(v, [s], driver, "Trace_Collector", "Trace_Collector.cfg", sig_of, nontrivial)
+    if s.get("wired"):
+        vf.conformance(v, [s], driver, "Trace_CollectorLookup", "Trace_CollectorLookup.cfg", sig_of, nontrivial)
+    else:
+        vf.conformance(v, [s], driver, "Trace_Collector", "Trace_Collector.cfg", sig_of, nontrivial)
     return 1 if v.violations else 0
